@@ -37,6 +37,27 @@ def _take_on_broadcast(prog):
     return False
 
 
+def _nested_swv(prog):
+    """some swv_reduce has another swv_reduce among its ancestors"""
+    anc = {}
+    for s in prog:
+        a = set()
+        for x in s.get("args", []):
+            a |= anc.get(x, set())
+        if s["op"] == "swv_reduce":
+            if "swv" in a:
+                return True
+            a = a | {"swv"}
+        anc[s["out"]] = a
+    return False
+
+
+def _zero_width_on_broadcast_axis(msg):
+    import re
+
+    return "Chunks do not add up to same value" in msg and re.search(r"\((?:1, 0|0, 1)\)", msg) is not None
+
+
 def classify(prog, outcome):
     """outcome: ("exc", exception) or ("value", description).  Returns a signature string;
     known classes get their listed signature, anything else a generic one."""
@@ -46,8 +67,13 @@ def classify(prog, outcome):
         "Missing dependency ('sliding-window" in msg
         or "adjust_chunks specified with" in msg
         or "optimization changed the block structure" in msg
+        or "cannot reshape array of size" in msg
     ):
         return "swv-layout-drift"
+    if _nested_swv(prog) and kind == "value":
+        return "swv-nested-wrong-values"
+    if kind == "exc" and _zero_width_on_broadcast_axis(msg):
+        return "broadcast-axis-zero-width-chunk"
     if _take_on_broadcast(prog) and ("Chunks do not add up to shape" in msg or kind == "value"):
         return "take-through-broadcast"
     if _minmax_on_empty(prog) and ("zero-size array to reduction" in msg or kind == "value"):
